@@ -220,6 +220,32 @@ void run_t(vf::Ctx& c)
             if (integrator == 0 && e.asked_weight) { VF_CHECK(c, e.weight == T(1), "C17:plain-weight", "PLAIN weight " << vf::show(e.weight)); }
             ++c.sub;
         }
+        if (integrator == 1)
+        {
+            // a random number of exactly 1 cannot come out of libstdc++'s generate_canonical, but the documented
+            // work-around in the sampling code is there for libraries that do return it: construct the point directly
+            T const specials[] = {T(1), T(0), std::nextafter(T(1), T(0)), T(0.5)};
+            for (T u : specials)
+            {
+                for (std::size_t j = 0; j != dims; ++j)
+                {
+                    std::vector<T> rn(dims, T(0.25));
+                    rn[j] = u;
+                    std::vector<std::size_t> bin(dims, 0);
+                    hep::vegas_point<T> const p(rn, bin, pdf);
+                    for (std::size_t k = 0; k != dims; ++k)
+                    {
+                        VF_CHECK(c, p.bin()[k] < bins, "C17:vegas-bin", "random number " << vf::show(u) << ": bin index " << p.bin()[k] << " of " << bins);
+                        VF_CHECK(c, p.point()[k] >= T(0) && p.point()[k] <= T(1), "C17:vegas-closed", "random number " << vf::show(u) << ": coordinate " << vf::show(p.point()[k]));
+                        VF_CHECK(c, pdf.bin_left(k, p.bin()[k]) <= p.point()[k] && p.point()[k] <= pdf.bin_left(k, p.bin()[k] + 1), "C17:vegas-point-in-bin",
+                            "random number " << vf::show(u) << ": point " << vf::show(p.point()[k]) << " outside bin " << p.bin()[k]);
+                    }
+                    VF_CHECK(c, std::isfinite(p.weight()) && p.weight() >= T(0), "C17:vegas-weight", "random number " << vf::show(u) << ": weight " << vf::show(p.weight()));
+                    ++c.sub;
+                }
+            }
+            has_extreme = true;
+        }
         c.nontrivial = has_extreme && calls > 0;
     }
     else
